@@ -4,7 +4,7 @@
 cd "$(dirname "$0")/.."
 out=seeded/RESULTS.txt
 [ -n "${1:-}" ] || : > $out
-for d in seeded/*/; do
+for d in seeded/C*/; do
   case "$d" in *"${1:-}"*) ;; *) continue;; esac
   tools/seedtest.sh "$d" 2>&1 | grep -v "^    demo" | tee -a $out
 done
